@@ -661,7 +661,8 @@ func simC16(c *sim.Ctx) {
 				c.Fail("pull", "errors-differ", "NextPacket", "source returned %d errors, NextPacket returned %d", len(pullErrs), len(gotErrs))
 			}
 			for i := range gotErrs {
-				if gotErrs[i] != pullErrs[i] {
+				// (the source's own error value or something that wraps it)
+				if gotErrs[i] != pullErrs[i] && !errors.Is(gotErrs[i], pullErrs[i]) {
 					c.Fail("pull", "errors-differ", "NextPacket", "error %d: got %v, source returned %v", i, gotErrs[i], pullErrs[i])
 				}
 			}
